@@ -106,6 +106,8 @@ class PathFacts:
         self.cap = cap
         self.widened = False
         self._edge_cache = {}
+        self._loop_blocks = None
+        self._stored_locals = None
         self._blk_kill = {}
         self.IN = None
         self.history = history
@@ -224,7 +226,7 @@ class PathFacts:
     def edge_facts_tracked(self, b, lab, fs, l):
         """edge facts of a bool switch on local l, from the expression this path assigned to l (if tracked)"""
         for f in fs:
-            if f[0] == '~c' and f[1] == l and isinstance(f[2], tuple):
+            if f[0] == '~c' and f[1] == l and isinstance(f[2], tuple) and f[2][0] == 'x':
                 key = (b, lab, f[2][1])
                 if key in self._edge_cache:
                     return self._edge_cache[key]
@@ -347,6 +349,39 @@ class PathFacts:
 
         def multi(l):
             return len(defs.get(l, ())) > 1
+
+        def match_valued(l):
+            # a non-bool local with 2..8 whole definitions, each in its own block, none inside a loop: the value of a match / if
+            ds = defs.get(l, ())
+            if not (2 <= len(ds) <= 8) or self.fa.fn.local_ty(l) == 'bool' or l == 0:
+                return False
+            if self._stored_locals is None:
+                # only locals whose value is written to memory (`*slot = v`, `self.x[i].f = v`), directly or through one copy
+                st_ = set()
+                cp_ = {}
+                for bb_ in self.blocks:
+                    for s_ in bb_['s']:
+                        if 'p' not in s_ or s_['rv']['k'] != 'use':
+                            continue
+                        src_ = s_['rv']['x'].get('m') or s_['rv']['x'].get('c')
+                        if src_ is None or src_['pr']:
+                            continue
+                        if any(e_ in ('*', '*raw') for e_ in s_['p']['pr']):
+                            st_.add(src_['l'])
+                        elif not s_['p']['pr']:
+                            cp_.setdefault(s_['p']['l'], set()).add(src_['l'])
+                for d_ in list(st_):
+                    st_ |= cp_.get(d_, set())
+                self._stored_locals = st_
+            if l not in self._stored_locals:
+                return False
+            if any(part for (b_, k_, part) in ds) or len({b_ for (b_, k_, part) in ds}) != len(ds):
+                return False
+            if self._loop_blocks is None:
+                self._loop_blocks = set()
+                for h_, body_ in self.cfg.loops().items():
+                    self._loop_blocks |= body_
+            return not any(b_ in self._loop_blocks for (b_, k_, part) in ds)
         for s in bb['s']:
             if 'p' not in s:
                 continue
@@ -375,6 +410,9 @@ class PathFacts:
                 # that the later test of the local yields the facts of the expression this path assigned
                 e = self.fa.rvalue(rv, (b, bb['s'].index(s)))
                 script.append(('set', p['l'], ('x', (b, bb['s'].index(s)), e)))
+            elif match_valued(p['l']):
+                # `let v = match op { A => f(x), B => g(x), C => y }; *slot = v`: which definition reached is tracked per path
+                script.append(('set', p['l'], ('d', (b, bb['s'].index(s)))))
             else:
                 script.append(('kill', p['l']))
         t = bb['t']
@@ -382,6 +420,8 @@ class PathFacts:
             if self.fa.fn.local_ty(t['d']['l']) == 'bool' and 'indirect' not in t['f'] and multi(t['d']['l']):
                 e = self.fa.call_value(t, (b, len(bb['s'])))
                 script.append(('set', t['d']['l'], ('x', (b, len(bb['s'])), e)))
+            elif match_valued(t['d']['l']):
+                script.append(('set', t['d']['l'], ('d', (b, len(bb['s'])))))
             else:
                 script.append(('kill', t['d']['l']))
         am = self.fa.addr_taken_mut()
@@ -421,6 +461,24 @@ class PathFacts:
         for f in fs:
             if f[0] == '~c' and f[1] == local:
                 return None if isinstance(f[2], tuple) else f[2]
+        return None
+
+    def path_def_value(self, fs, local):
+        """value of the definition of a match-valued local that reached on this path (None if not tracked)"""
+        for _hop in range(3):
+            for f in fs:
+                if f[0] == '~c' and f[1] == local and isinstance(f[2], tuple) and f[2][0] == 'd':
+                    b, k = f[2][1]
+                    return self.fa.def_value(local, b, k)
+            # a temporary copy of the tracked local made in the block of the use itself
+            sd = self.fa.single_def(local)
+            if sd is None or sd[1] >= len(self.blocks[sd[0]]['s']):
+                return None
+            rv = self.blocks[sd[0]]['s'][sd[1]]['rv']
+            src = (rv['x'].get('m') or rv['x'].get('c')) if rv['k'] == 'use' else None
+            if src is None or src['pr']:
+                return None
+            local = src['l']
         return None
 
     def at_call(self, b):
@@ -545,6 +603,8 @@ def fact_killed(f, ks, immut=frozenset()):
     """is fact f invalidated by the kill keys ks?  Loads rooted at a shared-reference
     parameter (index in immut) cannot change during the call and are never killed."""
     if f[0] == '~c' and isinstance(f[2], tuple):
+        if f[2][0] == 'd':
+            return False
         return fact_killed(('btrue', strip_sites(f[2][2])), ks, immut)
     if f[0] in ('stored', 'called', '~b', '~v', '~c'):
         return False  # history markers
